@@ -92,11 +92,19 @@ impl Scenario for StartupScenario {
         // what the outstation is like before the first connection
         for k in 0..nassoc {
             if rng.chance(1, 2) {
-                script.push(MOp::SetIin { assoc: k, iin1: *rng.pick(&[0x80u8, 0x90, 0x10, 0x82, 0x0E]), iin2: if rng.chance(1, 6) { 0x08 } else { 0 } });
+                script.push(MOp::SetIin {
+                    assoc: k,
+                    iin1: *rng.pick(&[0x80u8, 0x90, 0x10, 0x82, 0x0E]),
+                    iin2: if rng.chance(1, 6) { 0x08 } else { 0 },
+                });
             }
         }
         if rng.chance(1, 3) {
-            script.push(MOp::AddPoll { assoc: rng.urange(0, nassoc - 1), classes: 0x07, period_ms: *rng.pick(&[500u64, 2000, 7000]) });
+            script.push(MOp::AddPoll {
+                assoc: rng.urange(0, nassoc - 1),
+                classes: 0x07,
+                period_ms: *rng.pick(&[500u64, 2000, 7000]),
+            });
         }
         let gen_failures = |rng: &mut Rng| -> Vec<Reply> {
             let n = *rng.pick(&[0usize, 1, 1, 2, 3, 5, 7]);
@@ -119,7 +127,10 @@ impl Scenario for StartupScenario {
         };
         let first = gen_failures(rng);
         if !first.is_empty() {
-            script.push(MOp::Replies { assoc: 0, replies: first });
+            script.push(MOp::Replies {
+                assoc: 0,
+                replies: first,
+            });
         }
         script.push(MOp::Enable);
         let rounds = rng.urange(1, 6);
@@ -133,23 +144,61 @@ impl Scenario for StartupScenario {
                 _ => 25_000,
             }));
             match rng.below(12) {
-                0 | 1 => script.push(MOp::Unsol { assoc, seq: rng.below(16) as u8, data: true, con: rng.chance(3, 4) }),
-                2 => script.push(MOp::Unsol { assoc, seq: rng.below(16) as u8, data: false, con: rng.chance(3, 4) }),
+                0 | 1 => script.push(MOp::Unsol {
+                    assoc,
+                    seq: rng.below(16) as u8,
+                    data: true,
+                    con: rng.chance(3, 4),
+                }),
+                2 => script.push(MOp::Unsol {
+                    assoc,
+                    seq: rng.below(16) as u8,
+                    data: false,
+                    con: rng.chance(3, 4),
+                }),
                 3 => {
                     // the outstation restarts: null unsolicited response with the restart indication
-                    script.push(MOp::SetIin { assoc, iin1: 0x80, iin2: 0 });
-                    script.push(MOp::Unsol { assoc, seq: rng.below(16) as u8, data: false, con: true });
+                    script.push(MOp::SetIin {
+                        assoc,
+                        iin1: 0x80,
+                        iin2: 0,
+                    });
+                    script.push(MOp::Unsol {
+                        assoc,
+                        seq: rng.below(16) as u8,
+                        data: false,
+                        con: true,
+                    });
                     if rng.bool() {
-                        script.push(MOp::Unsol { assoc, seq: rng.below(16) as u8, data: true, con: true });
+                        script.push(MOp::Unsol {
+                            assoc,
+                            seq: rng.below(16) as u8,
+                            data: true,
+                            con: true,
+                        });
                     }
                 }
                 4 => {
                     // an indication in one unsolicited response only
-                    let (a, b) = *rng.pick(&[(0x10u8, 0u8), (0, 0x08), (0x02, 0), (0x0E, 0), (0x80, 0)]);
-                    script.push(MOp::SetIin { assoc, iin1: a, iin2: b });
-                    script.push(MOp::Unsol { assoc, seq: rng.below(16) as u8, data: rng.bool(), con: rng.bool() });
+                    let (a, b) =
+                        *rng.pick(&[(0x10u8, 0u8), (0, 0x08), (0x02, 0), (0x0E, 0), (0x80, 0)]);
+                    script.push(MOp::SetIin {
+                        assoc,
+                        iin1: a,
+                        iin2: b,
+                    });
+                    script.push(MOp::Unsol {
+                        assoc,
+                        seq: rng.below(16) as u8,
+                        data: rng.bool(),
+                        con: rng.bool(),
+                    });
                     if a != 0x80 {
-                        script.push(MOp::SetIin { assoc, iin1: 0, iin2: 0 });
+                        script.push(MOp::SetIin {
+                            assoc,
+                            iin1: 0,
+                            iin2: 0,
+                        });
                     }
                 }
                 5 => script.push(MOp::Cut { eof: rng.bool() }),
@@ -164,25 +213,66 @@ impl Scenario for StartupScenario {
                         script.push(MOp::Replies { assoc, replies: f });
                     }
                     if rng.bool() {
-                        script.push(MOp::SetIin { assoc, iin1: *rng.pick(&[0x80u8, 0x10, 0x90]), iin2: 0 });
+                        script.push(MOp::SetIin {
+                            assoc,
+                            iin1: *rng.pick(&[0x80u8, 0x10, 0x90]),
+                            iin2: 0,
+                        });
                     }
                 }
-                9 => script.push(MOp::User { assoc, kind: UserKind::ReadClasses(0x0F) }),
+                9 => script.push(MOp::User {
+                    assoc,
+                    kind: UserKind::ReadClasses(0x0F),
+                }),
                 10 => script.push(MOp::DemandPoll(0)),
                 _ => {
                     if rng.bool() {
-                        script.push(MOp::SetIin { assoc, iin1: *rng.pick(&[0u8, 0x02, 0x10]), iin2: *rng.pick(&[0u8, 0, 0x08]) });
+                        script.push(MOp::SetIin {
+                            assoc,
+                            iin1: *rng.pick(&[0u8, 0x02, 0x10]),
+                            iin2: *rng.pick(&[0u8, 0, 0x08]),
+                        });
                     } else {
                         // indications in quick succession: overflow (integrity poll scheduled, perhaps failing), then a restart,
                         // then data - the gate has to be closed whatever state the integrity task is in
-                        script.push(MOp::Replies { assoc, replies: vec![if rng.bool() { Reply::Silent } else { Reply::Late(rng.range(100, 900)) }] });
-                        script.push(MOp::SetIin { assoc, iin1: 0, iin2: 0x08 });
-                        script.push(MOp::Unsol { assoc, seq: rng.below(16) as u8, data: false, con: rng.bool() });
+                        script.push(MOp::Replies {
+                            assoc,
+                            replies: vec![if rng.bool() {
+                                Reply::Silent
+                            } else {
+                                Reply::Late(rng.range(100, 900))
+                            }],
+                        });
+                        script.push(MOp::SetIin {
+                            assoc,
+                            iin1: 0,
+                            iin2: 0x08,
+                        });
+                        script.push(MOp::Unsol {
+                            assoc,
+                            seq: rng.below(16) as u8,
+                            data: false,
+                            con: rng.bool(),
+                        });
                         script.push(MOp::Sleep(rng.range(0, 300)));
-                        script.push(MOp::SetIin { assoc, iin1: 0x80, iin2: 0 });
-                        script.push(MOp::Unsol { assoc, seq: rng.below(16) as u8, data: false, con: rng.bool() });
+                        script.push(MOp::SetIin {
+                            assoc,
+                            iin1: 0x80,
+                            iin2: 0,
+                        });
+                        script.push(MOp::Unsol {
+                            assoc,
+                            seq: rng.below(16) as u8,
+                            data: false,
+                            con: rng.bool(),
+                        });
                         script.push(MOp::Sleep(rng.range(0, 50)));
-                        script.push(MOp::Unsol { assoc, seq: rng.below(16) as u8, data: true, con: true });
+                        script.push(MOp::Unsol {
+                            assoc,
+                            seq: rng.below(16) as u8,
+                            data: true,
+                            con: true,
+                        });
                     }
                 }
             }
@@ -191,7 +281,11 @@ impl Scenario for StartupScenario {
             cfg,
             chunk: rng.below(5) as u8,
             chunk_seed: rng.next_u64(),
-            latency: if rng.chance(1, 3) { (rng.below(30), rng.below(30)) } else { (0, 0) },
+            latency: if rng.chance(1, 3) {
+                (rng.below(30), rng.below(30))
+            } else {
+                (0, 0)
+            },
             script,
             tail_ms: 90_000,
         }
@@ -242,6 +336,8 @@ struct Model {
     unsol_expected: Vec<(u8, bool, bool, u64)>,
     unsol_accepted: Vec<u8>,
     unsol_confirmed: Vec<u8>,
+    /// the unsolicited fragment accepted last on this connection (a byte-identical one after it is a repeat)
+    last_accepted_unsol: Option<Vec<u8>>,
 }
 
 impl Model {
@@ -256,16 +352,20 @@ impl Model {
             unsol_expected: Vec::new(),
             unsol_accepted: Vec::new(),
             unsol_confirmed: Vec::new(),
+            last_accepted_unsol: None,
         };
         m.reset();
         m
     }
 
     fn reset(&mut self) {
-        self.pending = [Kind::Disable, Kind::Integrity, Kind::Enable].into_iter().collect();
+        self.pending = [Kind::Disable, Kind::Integrity, Kind::Enable]
+            .into_iter()
+            .collect();
         self.fails.clear();
         self.gate_open = self.cfg.startup_integrity == 0;
         self.running = None;
+        self.last_accepted_unsol = None;
         // events_available survives a session reset in the library; it only matters together with a demanded event scan
     }
 
@@ -281,7 +381,11 @@ impl Model {
     }
 
     fn outstanding(&self) -> Vec<Kind> {
-        self.pending.iter().copied().filter(|k| self.relevant(*k)).collect()
+        self.pending
+            .iter()
+            .copied()
+            .filter(|k| self.relevant(*k))
+            .collect()
     }
 
     /// IIN of a response or unsolicited message the master processed
@@ -313,11 +417,19 @@ impl Model {
     }
 }
 
-pub fn analyse(case: &SmastCase, run: &MastRun) -> (Option<Violation>, bool, u64, Vec<(String, u64)>) {
+pub fn analyse(
+    case: &SmastCase,
+    run: &MastRun,
+) -> (Option<Violation>, bool, u64, Vec<(String, u64)>) {
     let hist = master_time_history(case, run);
     let mut counters: BTreeMap<String, u64> = BTreeMap::new();
     let mut bump = |k: &str| *counters.entry(k.to_string()).or_insert(0) += 1;
-    let mut models: BTreeMap<u16, Model> = case.cfg.assocs.iter().map(|a| (a.address, Model::new(a))).collect();
+    let mut models: BTreeMap<u16, Model> = case
+        .cfg
+        .assocs
+        .iter()
+        .map(|a| (a.address, Model::new(a)))
+        .collect();
     let mut violation: Option<Violation> = None;
     let mut nontrivial = false;
     let mut fp = 0u64;
@@ -368,10 +480,18 @@ pub fn analyse(case: &SmastCase, run: &MastRun) -> (Option<Violation>, bool, u64
                 disturbances.push(*t);
                 last_disturbance = *t;
             }
-            H::TaskStart { t, assoc, task, seq, .. } => {
+            H::TaskStart {
+                t,
+                assoc,
+                task,
+                seq,
+                ..
+            } => {
                 last_activity = *t;
                 any_running += 1;
-                let Some(m) = models.get_mut(assoc) else { continue };
+                let Some(m) = models.get_mut(assoc) else {
+                    continue;
+                };
                 let kind = kind_of(task);
                 fp = mix(&[fp, 1, kind.map(|k| k as u64 + 1).unwrap_or(0)]);
                 let outstanding = m.outstanding();
@@ -403,7 +523,10 @@ pub fn analyse(case: &SmastCase, run: &MastRun) -> (Option<Violation>, bool, u64
                                     format!("{:?} n={}", k, n),
                                     format!("{:?} for {} failed for the {}. time in a row at {} ms (back-off {} ms, min {} max {}) and was retried at {} ms", k, assoc, n, tf, m.back_off(n), m.cfg.retry_min_ms, m.cfg.retry_max_ms, t)
                                 );
-                            } else if *t > due + 2 && k != Kind::EventScan && channel_idle(&hist[.._pos], due) {
+                            } else if *t > due + 2
+                                && k != Kind::EventScan
+                                && channel_idle(&hist[.._pos], due)
+                            {
                                 // (an event scan is only due while the outstation still reports events)
                                 // the channel had been idle since before the retry was due, and it still came late
                                 fail!(
@@ -438,12 +561,15 @@ pub fn analyse(case: &SmastCase, run: &MastRun) -> (Option<Violation>, bool, u64
             H::TaskSuccess { t, assoc, task, .. } => {
                 last_activity = *t;
                 any_running = any_running.saturating_sub(1);
-                let Some(m) = models.get_mut(assoc) else { continue };
+                let Some(m) = models.get_mut(assoc) else {
+                    continue;
+                };
                 let last_iin = m.running.as_ref().and_then(|r| r.4);
                 m.running = None;
                 if let Some(k) = kind_of(task) {
                     fp = mix(&[fp, 2, k as u64]);
-                    let still_restart = k == Kind::Clear && last_iin.map(|i| i.0 & 0x80 != 0).unwrap_or(false);
+                    let still_restart =
+                        k == Kind::Clear && last_iin.map(|i| i.0 & 0x80 != 0).unwrap_or(false);
                     if still_restart {
                         // the outstation did not clear the bit: counts as a failure
                         let n = m.fails.get(&k).map(|f| f.0).unwrap_or(0) + 1;
@@ -457,10 +583,17 @@ pub fn analyse(case: &SmastCase, run: &MastRun) -> (Option<Violation>, bool, u64
                     }
                 }
             }
-            H::TaskFail { t, assoc, task, err } => {
+            H::TaskFail {
+                t,
+                assoc,
+                task,
+                err,
+            } => {
                 last_activity = *t;
                 any_running = any_running.saturating_sub(1);
-                let Some(m) = models.get_mut(assoc) else { continue };
+                let Some(m) = models.get_mut(assoc) else {
+                    continue;
+                };
                 m.running = None;
                 if let Some(k) = kind_of(task) {
                     fp = mix(&[fp, 3, k as u64]);
@@ -470,7 +603,9 @@ pub fn analyse(case: &SmastCase, run: &MastRun) -> (Option<Violation>, bool, u64
                     let settled = rejected
                         && match k {
                             Kind::Disable | Kind::Enable => true,
-                            Kind::Clear => !iin1_of_error(err).map(|v| v & 0x80 != 0).unwrap_or(true),
+                            Kind::Clear => {
+                                !iin1_of_error(err).map(|v| v & 0x80 != 0).unwrap_or(true)
+                            }
                             _ => false,
                         };
                     if settled {
@@ -486,11 +621,15 @@ pub fn analyse(case: &SmastCase, run: &MastRun) -> (Option<Violation>, bool, u64
                 if bytes.len() < 4 || !connected {
                     continue;
                 }
-                let Some(m) = models.get_mut(src) else { continue };
+                let Some(m) = models.get_mut(src) else {
+                    continue;
+                };
                 let ctrl = refapp::Ctrl::from_u8(bytes[0]);
                 let iin = (bytes[2], bytes[3]);
                 if bytes[1] == refapp::FUNC_UNSOL_RESPONSE {
-                    if !(ctrl.uns && ctrl.fir && ctrl.fin) || refapp::decode_fragment(bytes).is_err() {
+                    if !(ctrl.uns && ctrl.fir && ctrl.fin)
+                        || refapp::decode_fragment(bytes).is_err()
+                    {
                         continue;
                     }
                     // the indications of an unsolicited response count even when its data is held back
@@ -504,10 +643,21 @@ pub fn analyse(case: &SmastCase, run: &MastRun) -> (Option<Violation>, bool, u64
                         bump("probe.data_unsolicited_while_gate_closed");
                     }
                     fp = mix(&[fp, 4, accept as u64, has_data as u64]);
-                    m.unsol_expected.push((ctrl.seq, accept, ctrl.con, *t));
+                    // an accepted fragment is a repeat (confirmed, not delivered again) only if it equals the one accepted before it;
+                    // one that was held back does not count. The expectation travels in bit 4 of the compared key.
+                    let mut key = ctrl.seq;
+                    if accept {
+                        if m.last_accepted_unsol.as_ref() == Some(bytes) {
+                            key |= 0x10;
+                        }
+                        m.last_accepted_unsol = Some(bytes.clone());
+                    }
+                    m.unsol_expected.push((key, accept, ctrl.con, *t));
                 } else if bytes[1] == refapp::FUNC_RESPONSE {
                     let timeout = m.cfg.response_timeout_ms;
-                    let Some(r) = m.running.as_mut() else { continue };
+                    let Some(r) = m.running.as_mut() else {
+                        continue;
+                    };
                     if ctrl.uns || ctrl.seq != r.2 || !ctrl.fir || !ctrl.fin || iin.1 & 0x07 != 0 {
                         continue;
                     }
@@ -523,18 +673,26 @@ pub fn analyse(case: &SmastCase, run: &MastRun) -> (Option<Violation>, bool, u64
                     m.observe(iin);
                 }
             }
-            H::Unsolicited { assoc, seq, .. } => {
+            H::Unsolicited { assoc, seq, dup, .. } => {
                 if let Some(m) = models.get_mut(assoc) {
-                    m.unsol_accepted.push(*seq);
+                    m.unsol_accepted.push(*seq | if *dup { 0x10 } else { 0 });
                 }
             }
-            H::Confirm { dest, seq, uns: true, .. } => {
+            H::Confirm {
+                dest,
+                seq,
+                uns: true,
+                ..
+            } => {
                 if let Some(m) = models.get_mut(dest) {
                     m.unsol_confirmed.push(*seq);
                 }
             }
             H::Op { t, index } => {
-                if matches!(case.script.get(*index), Some(MOp::Cut { .. }) | Some(MOp::Disable)) {
+                if matches!(
+                    case.script.get(*index),
+                    Some(MOp::Cut { .. }) | Some(MOp::Disable)
+                ) {
                     disturbances.push(*t);
                     last_disturbance = *t;
                 }
@@ -546,7 +704,10 @@ pub fn analyse(case: &SmastCase, run: &MastRun) -> (Option<Violation>, bool, u64
     // gate: compare what had to be accepted / confirmed with what was
     if violation.is_none() && !uncertain {
         for (addr, m) in &models {
-            let check = |expected: Vec<(u8, bool)>, actual: &Vec<u8>, what: &str| -> Option<Violation> {
+            let check = |expected: Vec<(u8, bool)>,
+                         actual: &Vec<u8>,
+                         what: &str|
+             -> Option<Violation> {
                 // expected: (seq, certain) in order; `actual` must be a subsequence of it that contains every certain entry
                 let aligned = |need_certain: bool| -> bool {
                     let (n, k) = (expected.len(), actual.len());
@@ -593,13 +754,27 @@ pub fn analyse(case: &SmastCase, run: &MastRun) -> (Option<Violation>, bool, u64
             };
             // something sent, or confirmed, around a disconnect may never have arrived
             let lat = case.latency.0 + case.latency.1 + 2;
-            let certain = |arrival: u64| !disturbances.iter().any(|d| *d + lat >= arrival && *d <= arrival + lat);
-            let exp_acc: Vec<(u8, bool)> = m.unsol_expected.iter().filter(|e| e.1).map(|e| (e.0, certain(e.3))).collect();
+            let certain = |arrival: u64| {
+                !disturbances
+                    .iter()
+                    .any(|d| *d + lat >= arrival && *d <= arrival + lat)
+            };
+            let exp_acc: Vec<(u8, bool)> = m
+                .unsol_expected
+                .iter()
+                .filter(|e| e.1)
+                .map(|e| (e.0, certain(e.3)))
+                .collect();
             if let Some(v) = check(exp_acc, &m.unsol_accepted, "delivered") {
                 violation = Some(v);
                 break;
             }
-            let exp_conf: Vec<(u8, bool)> = m.unsol_expected.iter().filter(|e| e.1 && e.2).map(|e| (e.0, certain(e.3))).collect();
+            let exp_conf: Vec<(u8, bool)> = m
+                .unsol_expected
+                .iter()
+                .filter(|e| e.1 && e.2)
+                .map(|e| (e.0 & 0x0F, certain(e.3)))
+                .collect();
             if let Some(v) = check(exp_conf, &m.unsol_confirmed, "confirmed") {
                 violation = Some(v);
                 break;
@@ -607,7 +782,16 @@ pub fn analyse(case: &SmastCase, run: &MastRun) -> (Option<Violation>, bool, u64
         }
     }
     // bounded liveness: after a long quiet tail on a live connection with a faithful outstation the sequence has completed
-    if violation.is_none() && !uncertain && connected && run.end_ms.saturating_sub(connected_since.max(last_disturbance).max(run.last_deviation_ms)) >= 40_000 && run.leftover_replies == 0 {
+    if violation.is_none()
+        && !uncertain
+        && connected
+        && run.end_ms.saturating_sub(
+            connected_since
+                .max(last_disturbance)
+                .max(run.last_deviation_ms),
+        ) >= 40_000
+        && run.leftover_replies == 0
+    {
         for (addr, m) in &models {
             let outstanding = m.outstanding();
             bump("probe.liveness_checked");
